@@ -148,7 +148,8 @@ class Interp:
             # a nested function reads its enclosing function's variables (closure): it sees the caller's environment
             e2 = {k: v for k, v in env.items() if not (isinstance(k, str) and k.startswith('<'))}
         else:
-            e2 = {k: v for k, v in env.items() if isinstance(k, str) and (k == 'self' or k.startswith('self.'))}
+            # facts about the receiver and about class-level names (Class.CONSTANT) stay valid inside the callee; the caller's locals do not
+            e2 = {k: v for k, v in env.items() if isinstance(k, str) and (k == 'self' or k.startswith('self.') or (k[:1].isupper() and '.' in k))}
         defaults = callee.args.defaults
         for p, d in zip(params[len(params) - len(defaults):], defaults):
             e2[p] = self.value(d, {})
